@@ -32,15 +32,17 @@ class AssemblyManager(object):
     def assemble(self):
         modmap = self._generate_modules_map()
 
-        for elem in self.elements:
-            self._deref_citations(elem.record)
-
-        assembly = self._generate_assembly(modmap)
-
-        self._annotate_assembly(assembly)
-        self._ref_citations(assembly)
-        for elem in self.elements:
-            self._ref_citations(elem.record)
+        saved = []
+        try:
+            for elem in self.elements:
+                self._deref_citations(elem.record, saved)
+            assembly = self._generate_assembly(modmap)
+            self._annotate_assembly(assembly)
+            self._ref_citations(assembly)
+        finally:
+            # whatever happened, give the inputs their own citation indices back
+            for citations, original in reversed(saved):
+                citations[:] = original
 
         return assembly
 
@@ -74,15 +76,18 @@ class AssemblyManager(object):
 
     _CITATION_RX = re.compile(r"\[(\d*)\]")
 
-    def _deref_citations(self, record):
+    def _deref_citations(self, record, saved):
         references = record.annotations.get("references", [])
         for feature in record.features:
-            for i, ref in enumerate(feature.qualifiers.get("citation", [])):
+            citations = feature.qualifiers.get("citation", [])
+            if citations:
+                saved.append((citations, list(citations)))
+            for i, ref in enumerate(citations):
                 match = self._CITATION_RX.match(ref)
                 if match is None:
                     raise ValueError("invalid citation: '{}'".format(ref))
                 ref_index = int(match.group(1)) - 1
-                feature.qualifiers["citation"][i] = references[ref_index]
+                citations[i] = references[ref_index]
 
     def _ref_citations(self, record):
         references = record.annotations.setdefault("references", [])
@@ -90,8 +95,8 @@ class AssemblyManager(object):
             for i, ref in enumerate(feature.qualifiers.get("citation", [])):
                 if ref not in references:
                     references.append(ref)
-                ref_index = references.find(ref) + 1
-                feature.qualifiers["citation"][i] = "{}".format(ref_index)
+                ref_index = references.index(ref) + 1
+                feature.qualifiers["citation"][i] = "[{}]".format(ref_index)
 
     def _annotate_assembly(self, assembly):
         assembly.id = self.id
